@@ -361,6 +361,9 @@ impl ReaderState {
         #[cfg(feature = "Debug_Reader")]
 
         debug!("<<< {:?}", self.file);
+        if !self.in_scxml {
+            return Err(format!("No <{}> element found", TAG_SCXML));
+        }
         Ok("ok")
     }
 
